@@ -107,7 +107,7 @@ Proof.
     match goal with |- over_genes _ _ (st_src (snd (?m (with_exp st ?x)))) =>
       assert (K : gkeeps k dna m) by (apply gk_bind; [apply gk_lift | intro; apply gk_on_src; intros; eapply choice_genes; eauto]);
       apply (K (with_exp st x)) end. exact H.
-  - apply gk_bind; [apply gk_lift|]. intro mx. apply gk_bind; [apply gk_lift|]. intro tg.
+  - apply gk_bind; [apply gk_lift|]. intro tg.
     apply gk_bind; [apply gk_lift | intro; apply gk_on_src; intros; eapply choice_weighted_genes; eauto].
 Qed.
 
